@@ -284,3 +284,25 @@ PROPS["C17"] = dict(
     ],
     not_covered=["password verification", "create_session_with_lifetime (same body as create_session with a caller-supplied lifetime)", "with_auth_route cookie handling (app.rs)", "databases with more than 2 users", "custom AuthDatabase implementations"],
 )
+
+
+PROPS["C19"] = dict(
+    level="model_checking",
+    steps=[
+        dict(kind="kani", crate="humphrey_server", module="in_server", tag="c19", jobs=4, unwind_rules=[("id:memcmp.0", 20)], harnesses=[
+            H("c19_blacklist_check_fwd", "bounded",
+              "blacklist_check (the per-request check of file/directory/redirect routes), request carrying X-Forwarded-For: 403 iff the connecting peer OR the forwarded origin is listed -- "
+              "whatever the header says a listed peer is refused, and a request forwarded on behalf of a listed address is refused; otherwise the check passes",
+              bound="list = {A (IPv4)}; peer and origin range over A, an unlisted IPv4 and an unlisted IPv6 address", timeout=1200),
+            H("c19_blacklist_check_direct", "bounded", "same without X-Forwarded-For, list = {IPv6 D, A}: 403 iff the peer is listed", bound="list of 2 (IPv6 + IPv4), 3 candidate peers", timeout=1200),
+            H("c19_verify_connection_block", "bounded", "verify_connection in block mode: the connection is refused exactly when the peer address is listed (or unknown)", bound="list of 2, 3 candidate peers", timeout=1200),
+            H("c19_verify_connection_forbidden", "bounded", "verify_connection in forbidden mode: connections are accepted (requests get 403 instead)", bound="list of 2, 3 candidate peers", timeout=1200),
+        ]),
+    ],
+    kani_functions=[dict(file="humphrey-server/src/server/static.rs", item="blacklist_check", engine="kani"),
+                    dict(file="humphrey-server/src/server/server.rs", item="verify_connection", engine="kani")],
+    assumptions=["request.address is what Address::from_headers produces (origin = last X-Forwarded-For entry, peer appended to proxies): that function itself (str::split + IpAddr::from_str) is not executed",
+                 "logging (format!, Logger::warn) stubbed: its text is not part of the obligation", "TcpStream::peer_addr replaced by a stub returning the symbolic peer"],
+    not_covered=["that file_handler / directory_handler / redirect_handler call blacklist_check before touching cache or files and return its 403 (harnesses written, CBMC out of memory)",
+                 "the identical inline check in proxy_handler (repaired together with blacklist_check, not harnessed)", "socket-level behaviour (connection closed without a response)", "blacklist file parsing"],
+)
